@@ -33,8 +33,13 @@ def gen_history(rng, L):
         elif r < 0.6:
             ops.append(["state"])
             nsaved += 1
-        elif r < 0.75 and nsaved:
+        elif r < 0.68 and nsaved:
             ops += [["load", rng.randrange(nsaved)], ["iter"]]
+        elif r < 0.75 and nsaved:
+            # a state is loaded while the current iterator is still being consumed; state_dict() is called with the load pending; the old
+            # iterator is then advanced further before the next iter() picks the loaded state up
+            ops += [["load", rng.randrange(nsaved)], ["state"]] + [["next"]] * rng.randint(1, 3) + [["iter"]]
+            nsaved += 1
         elif r < 0.85 and nsaved:
             ops += [["fresh"], ["load", rng.randrange(nsaved)], ["iter"]]
         elif r < 0.93:
@@ -56,6 +61,10 @@ def gen_cases(rng, tier, drift):
         cfg.update(W=rng.choice([0, 0, 2]), n=rng.randint(3, 10), bs=rng.choice([1, 2, 3]), I=rng.choice([1, 1, 2]),
                    sampler=dict(replacement=False, num_samples=None), gseed=rng.randint(0, 999))
         cases.append(dict(kind="sdl", cfg=cfg, pre=rng.random() < 0.8, between=rng.random() < 0.5))
+    for _ in range(max(4, nsdl // 6)):
+        # worker dataset state with a large tensor of constant shape: the dicts handed out earlier must not be rewritten by later steps
+        cases.append(dict(kind="sdl", cfg=dict(kind="iter", bigstate=True, n=rng.randint(4, 9), W=rng.choice([1, 2, 2]), bs=rng.choice([1, 2]),
+                                               I=rng.choice([1, 1, 2]), P=rng.choice([1, 2])), pre=rng.random() < 0.5, between=rng.random() < 0.5))
     for _ in range(n):
         p = ni.gen_well_typed_pipe(rng, max_depth=rng.choice([1, 2, 3, 4]), threads=rng.random() < 0.5)
         L = max(len(ni.ref_sem(p, e)) for e in range(4))
@@ -189,12 +198,43 @@ def run_impl(c):
     return dict(oracle="; ".join(fails[:2]) or None, nontrivial=c["k"] > 0, key=[c[k] for k in sorted(c)])
 
 
+def _big_state_loader(cfg):
+    """real worker processes over an IterableDataset whose state holds a LARGE tensor (80 KB) of constant shape that changes with every item"""
+    import torch
+    import torch.utils.data as tud
+    from torchdata.stateful_dataloader import StatefulDataLoader
+    n, W = cfg["n"], cfg["W"]
+
+    class BigStateDS(tud.IterableDataset):
+        def __init__(self):
+            self.i = 0
+
+        def __iter__(self):
+            info = tud.get_worker_info()
+            w, nw = (info.id, info.num_workers) if info else (0, 1)
+            items = list(range(w, n, nw))
+            while self.i < len(items):
+                x = items[self.i]
+                self.i += 1
+                yield x
+            self.i = 0
+
+        def state_dict(self):
+            return {"i": self.i, "t": torch.full((20000,), float(self.i))}
+
+        def load_state_dict(self, sd):
+            self.i = sd["i"]
+    return StatefulDataLoader(BigStateDS(), batch_size=cfg["bs"], num_workers=W, snapshot_every_n_steps=cfg["I"],
+                              **({"prefetch_factor": cfg["P"]} if W else {}))
+
+
 def run_sdl(c):
     cfg = c["cfg"]
     fails = []
+    make = (lambda: _big_state_loader(cfg)) if cfg.get("bigstate") else (lambda: si.make_loader(cfg))
 
     def run(extra):
-        dl = si.make_loader(cfg)
+        dl = make()
         out, saved, pk = [], [], []
 
         def peek():
@@ -225,7 +265,7 @@ def run_sdl(c):
         for i in sorted({0, len(saved) // 2, len(saved) - 1}) if saved else []:
             cont = []
             for _ in range(2):
-                dl = si.make_loader(cfg)
+                dl = make()
                 dl.load_state_dict(saved[i])
                 cont.append([si.norm_batch(b) for b in dl])
             if cont[0] != cont[1]:
